@@ -830,8 +830,10 @@ class Dict(dict, base.Symbolic, pg_typing.CustomTyping):
     """Update Dict with the same semantic as update on standard dict."""
     updates = dict(other) if other else {}
     updates.update(kwargs)
+    # NOTE: keys are dict keys, not key paths ('a.b' is the key 'a.b').
     self.rebind(
-        updates, raise_on_no_change=False, skip_notification=True)
+        {utils.KeyPath(k): v for k, v in updates.items()},
+        raise_on_no_change=False, skip_notification=True)
 
   def __ior__(self, other) -> 'Dict':   # pytype: disable=signature-mismatch
     """In-place union: same as `update`."""
